@@ -178,6 +178,22 @@ func checkReused(c *hx.Ctx, d *ldoc, vr viewRun, kase interface{}) {
 			if bl.T == nil {
 				continue
 			}
+			if bl.Box != 0 {
+				// a table inside a block-level container of the body: it is the next table, if it is there at all
+				toks := bl.T.tokens()
+				if len(toks) == 0 {
+					continue
+				}
+				if k < len(vr.MTables) && (entry{Tbl: vr.MTables[k]}).contains(toks[0].Tok) {
+					if !bl.T.Undef {
+						checkGrid(f, bl.T, vr.MTables[k], bi)
+					}
+					k++
+					continue
+				}
+				f.add("block-container-content-lost", "ModelTables(): table block %d (first token %q) is not table #%d%s", bi, toks[0].Tok, k, boxNote(bl))
+				continue
+			}
 			if k >= len(vr.MTables) {
 				f.add("grid-cell", "ModelTables(): %d tables, table block %d is table #%d", len(vr.MTables), bi, k)
 				break
